@@ -159,4 +159,67 @@ def measure (s : Sys) : Nat :=
   sumW wMq s.mq0 + sumW wMq s.mq1 + sumW wMr s.mr0 + sumW wMr s.mr1 +
   sumW (fun c => wCtl c + 1) s.cq0 + sumW (fun c => wCtl c + 1) s.cq1
 
+/-! ## the driver's handshake as a closed system
+
+`HsW` = the handshake counters of `MgpuModel/C19.lean` (`Hs`, `hsStep` = one delivered message
+followed by ticks until quiescence) together with what the GPUs and the MMU did so far. The GPUs are
+honest: a response of a kind is delivered only when a command of that kind is outstanding; the order
+is arbitrary. MMU requests may arrive at any time (a request that finds the port full is not accepted). -/
+
+structure HsW where
+  h : Hs
+  /-- responses delivered so far, by kind -/
+  gotDrain : Nat := 0
+  gotShoot : Nat := 0
+  gotMig : Nat := 0
+  gotRestart : Nat := 0
+  gotRdma : Nat := 0
+  /-- requests taken from the MMU port (`parseFromMMU`) -/
+  taken : Nat := 0
+  /-- phases completed: all drain acks, all shootdown acks, all restart acks, all RDMA-restart acks
+      (the migration phases completed are counted by `rspMMU`) -/
+  nD : Nat := 0
+  nS : Nat := 0
+  nR : Nat := 0
+  nA : Nat := 0
+deriving Repr
+
+def HsW.enabled (w : HsW) : HsOp → Prop
+  | .fromMMU => True
+  | .drainRsp => w.gotDrain < w.h.sentDrain
+  | .shootRsp => w.gotShoot < w.h.sentShoot
+  | .migRsp => w.gotMig < w.h.sentMig
+  | .restartRsp => w.gotRestart < w.h.sentRestart
+  | .rdmaRsp => w.gotRdma < w.h.sentRdma
+
+instance (w : HsW) (o : HsOp) : Decidable (w.enabled o) := by
+  cases o <;> simp only [HsW.enabled] <;> exact inferInstance
+
+def HsW.step (w : HsW) (o : HsOp) : HsW :=
+  let d := hsDeliver w.h o
+  let took := !d.handling && d.mmuIn = 1
+  let w := { w with h := hsSettle d, taken := if took then w.taken + 1 else w.taken }
+  match o with
+  | .fromMMU => w
+  | .drainRsp => { w with gotDrain := w.gotDrain + 1, nD := if d.drain = 0 then w.nD + 1 else w.nD }
+  | .shootRsp => { w with gotShoot := w.gotShoot + 1, nS := if d.shoot = 0 then w.nS + 1 else w.nS }
+  | .migRsp => { w with gotMig := w.gotMig + 1 }
+  | .restartRsp => { w with gotRestart := w.gotRestart + 1, nR := if d.restart = 0 then w.nR + 1 else w.nR }
+  | .rdmaRsp => { w with gotRdma := w.gotRdma + 1, nA := if d.rdma = 0 then w.nA + 1 else w.nA }
+
+/-- reachable handshake states for `ngpu` GPUs, `acc` accessing GPUs and `pages` pages per request -/
+inductive HsReach (ngpu acc pages : Nat) : HsW → Prop
+  | init : HsReach ngpu acc pages { h := { ngpu := ngpu, acc := acc, pages := pages } }
+  | step {w : HsW} (o : HsOp) : HsReach ngpu acc pages w → w.enabled o → HsReach ngpu acc pages (w.step o)
+
+/-- `findRequestingGPUs` followed by the two nested loops of `processShootdownCompleteRsp` and
+    `preparePageMigrationRspToMMU` (as repaired: GPU order, not Go map order): the GPUs `1..ngpu`
+    that have an entry in `GPUReqToVAddrMap` (`m` lists the entries of the Go map in any order), each
+    with its pages in slice order; the result pairs the 0-based GPU id with the page address -/
+def migOrder (ngpu : Nat) (m : List (Nat × List Nat)) : List (Nat × Nat) :=
+  (List.range ngpu).flatMap fun i =>
+    match m.lookup (i + 1) with
+    | some vs => vs.map fun v => (i, v)
+    | none => []
+
 end C19
